@@ -136,6 +136,37 @@ func ruleC12Shapes(c *ctx.Ctx, r *core.Reporter) {
 				ok = true
 			}
 		}
+		// the predicate that decides it looks at EVERY later specification of the group, not only the next one
+		if ok {
+			okAll := false
+			for _, m := range findGoPattern(og.Body, `if µd.Tok == token.CONST && µp(µd, µj) { µµbody }`) {
+				if pd := c.FuncDecl("build", m.Env["µp"]); pd != nil && pd.Body != nil {
+					// a loop over the specifications after the index whose body never returns false / an
+					// arbitrary value: only `return true` may leave the loop early
+					ast.Inspect(pd.Body, func(n ast.Node) bool {
+						rs, isRange := n.(*ast.RangeStmt)
+						if !isRange || !strings.Contains(squash(exprStr(rs.X)), ".Specs[") {
+							return true
+						}
+						early := 0
+						ast.Inspect(rs.Body, func(x ast.Node) bool {
+							if _, isLit := x.(*ast.FuncLit); isLit {
+								return false
+							}
+							if ret, isRet := x.(*ast.ReturnStmt); isRet {
+								if len(ret.Results) != 1 || exprStr(ret.Results[0]) != "true" {
+									early++
+								}
+							}
+							return true
+						})
+						okAll = early == 0
+						return false
+					})
+				}
+			}
+			r.Check(okAll, "original:const-group-examines-all-later-specs", c.Pos(og.Pos()), "the test for position-dependent later constants walks all specifications after the overridden one (an iota run may follow an intervening plain specification); only a positive answer ends the walk early")
+		}
 		r.Check(ok, "original:const-group-keeps-positions", c.Pos(og.Pos()), "in a constant group whose later specifications repeat earlier expressions or use iota, an overridden constant is blanked, not removed (removal shifts iota and orphans the implicit repetitions)")
 	}
 }
